@@ -44,6 +44,12 @@ pub struct Ledger {
     pub viol: Vec<Viol>,
     /// closing: (side that called close, code, reason)
     pub closed_by: Option<(Side, u64, Vec<u8>)>,
+    /// C17: content key the client used for data written before the handshake completed in a world
+    /// whose server rejects early data; anything readable under this key at the server application
+    /// is early data that must have vanished (None = no recognition, the default)
+    pub early_key: Option<u64>,
+    /// C17: ids of datagrams the client sent before a rejection of early data
+    pub early_dgram_ids: std::collections::BTreeSet<u64>,
 }
 
 impl Ledger {
@@ -233,6 +239,12 @@ pub struct App {
     /// manual mode: events are only queued in `manual_events`; the check operates the connection
     pub manual: bool,
     pub manual_events: Vec<Event>,
+    /// C17: the workload was started before `Connected` (0-RTT); datagram ops are then executed before
+    /// the handshake completes as well
+    pub early: bool,
+    /// C17: called at `Connected` before the workload is (re)started; lets a check inspect the
+    /// connection at that instant and rewind the application state after a rejection of early data
+    pub pre_connected: Option<Box<dyn FnMut(&mut App, &mut Connection)>>,
 }
 
 fn dir_of(bidi: bool) -> Dir {
@@ -279,6 +291,8 @@ impl App {
             peer_dgram_recv: None,
             manual: false,
             manual_events: vec![],
+            early: false,
+            pre_connected: None,
         }
     }
 
@@ -315,6 +329,10 @@ impl App {
         match ev {
             Event::Connected => {
                 self.connected = true;
+                if let Some(mut h) = self.pre_connected.take() {
+                    h(self, c);
+                    self.pre_connected = Some(h);
+                }
                 self.start(c);
             }
             Event::HandshakeDataReady | Event::HandshakeConfirmed => {}
@@ -714,7 +732,16 @@ impl App {
                             format!("read on {id} returned [{}, {}) overlapping previously returned data", chunk.offset, chunk.offset + len),
                         );
                     }
-                    if let Some(bad) = check_content(key, k, fwd, chunk.offset, &chunk.bytes) {
+                    let early = match (check_content(key, k, fwd, chunk.offset, &chunk.bytes), l.early_key) {
+                        (Some(_), Some(ek)) if fwd && self.side.is_server() => check_content(ek, k, fwd, chunk.offset, &chunk.bytes).is_none(),
+                        _ => false,
+                    };
+                    if early {
+                        l.viol.insert(0, Viol {
+                            sig: "c17/early-data-visible".into(),
+                            msg: format!("the server application read [{}, {}) on {id} and obtained bytes the client wrote before the handshake completed, although the server rejected early data", chunk.offset, chunk.offset + len),
+                        });
+                    } else if let Some(bad) = check_content(key, k, fwd, chunk.offset, &chunk.bytes) {
                         l.fail(
                             "c01/content",
                             format!("byte at offset {} of {id} differs from what was written (chunk [{}, {}))", chunk.offset + bad as u64, chunk.offset, chunk.offset + len),
@@ -783,6 +810,19 @@ impl App {
                         }
                     }
                     None => l.fail("c16/recv-unexpected", format!("recv() returned datagram id {got_id:?} but the receive buffer model is empty")),
+                }
+            }
+            if let Some(ek) = l.early_key {
+                let id = if d.len() >= 8 { u64::from_be_bytes(d[..8].try_into().unwrap()) } else { 0 };
+                let is_early = self.side.is_server()
+                    && !d.is_empty()
+                    && ((d.len() >= 8 && l.early_dgram_ids.contains(&id)) || (dgram_payload(ek, id, d.len())[..] == d[..] && dgram_payload(self.key, id, d.len())[..] != d[..]));
+                if is_early {
+                    l.viol.insert(0, Viol {
+                        sig: "c17/early-datagram-visible".into(),
+                        msg: format!("the server application received a {}-byte datagram (id {id}) the client sent before the handshake completed, although the server rejected early data", d.len()),
+                    });
+                    continue;
                 }
             }
             if d.len() >= 8 {
@@ -863,6 +903,19 @@ impl App {
                     self.closed_locally = true;
                 }
                 AuxOp::LocalAddrChanged => c.local_address_changed(),
+                AuxOp::ResetOpen { nth, code } => {
+                    let ids: Vec<u64> = self.send.iter().filter(|(_, s)| s.fwd && !s.done && !s.closed).map(|(k, _)| *k).collect();
+                    if !ids.is_empty() {
+                        let k = ids[nth as usize % ids.len()];
+                        if c.send_stream(stream_id(k)).reset(VarInt::from_u32(code)).is_ok() {
+                            self.ledger.borrow_mut().reset.insert((k, true), code as u64);
+                        }
+                        if let Some(s) = self.send.get_mut(&k) {
+                            s.done = true;
+                            s.end = EndSpec::Reset { code, after: 0 };
+                        }
+                    }
+                }
             }
         }
         let ids: Vec<u64> = self.recv.iter().filter(|(_, s)| s.want_read && s.terminal.is_none()).map(|(k, _)| *k).collect();
@@ -872,7 +925,7 @@ impl App {
     }
 
     pub fn send_dgram(&mut self, c: &mut Connection, size: usize, drop: bool) {
-        if c.is_closed() || !self.connected {
+        if c.is_closed() || !(self.connected || self.early) {
             return;
         }
         let id = {
